@@ -522,6 +522,18 @@ def mask_ok_for(grid, mask):
     return mask not in ("M", "M2", "Ma") or grid not in ("unset", "nogrid")
 
 
+def full_product():
+    """thorough tier: the complete five-field product on a direct link (time x grid x units x mask x extra key on both ends)"""
+    for pt, ct in itertools.product(("unset", "set"), repeat=2):
+        for pg, cg in itertools.product(GRIDS, repeat=2):
+            for pu, cu in itertools.product(UNITS_, repeat=2):
+                for pm, cm in itertools.product(MASKS, repeat=2):
+                    if not (mask_ok_for(pg, pm) and mask_ok_for(cg, cm)):
+                        continue
+                    for pf, cf in itertools.product(FOO, repeat=2):
+                        yield [side(time=pt, grid=pg, units=pu, mask=pm, foo=pf), [side(time=ct, grid=cg, units=cu, mask=cm, foo=cf)], None, ["P", "C0"]]
+
+
 def items(tier):
     out = []
     orders1 = (["P", "C0"], ["C0", "P"])
@@ -587,6 +599,8 @@ def items(tier):
 
 def run(tier, seed, agg):
     its = items(tier)
+    if tier == "thorough":
+        its += list(full_product())
     cases = [dict(items=its[i : i + 200]) for i in range(0, len(its), 200)]
     k = seed % len(cases)
     for r in pmap(run_case, cases[k:] + cases[:k]):
@@ -598,6 +612,6 @@ def run(tier, seed, agg):
         "grid^2 x units^2 x producer time; two consumers per output (12 producer x 12^2 consumer states, three listing orders); GridToValue / ValueToGrid / SumOverTime(per_time) links; link direct or through Scale; both listing orders; "
         "each run through the real Composition.connect. Oracle: an independent agree(producer, consumer) predicate; on success the input info is complete, describes the delivered locations, has convertible units and carries the other side's values for unset fields (both directions); "
         "on conflict FinamMetaDataError and no data at any consumer. non-trivial = decided cases with at least one unset field",
-        bound=dict(note="sub-products are complete; the full 5-field product is not crossed"),
+        bound=dict(note="quick: complete sub-products; thorough: additionally the full 5-field product (time x grid x units x mask x extra key on both ends, 1.98 million combinations) on a direct link"),
         assumptions=["a producer whose mask is unset, NONE-vs-empty-mask pairs: not classified by the statement (either outcome accepted, crashes still reported)", "extra metadata conflicts (v vs w) are not 'grids, units or masks' and must not be rejected"],
     )
